@@ -1,11 +1,11 @@
 SPECIFICATION Spec
 CONSTANTS
   Mode = "selector"
-  MaxNodes = 3
-  MaxSteps = 2
+  MaxNodes = 1
+  MaxSteps = 3
   MaxDecls = 0
   Small = TRUE
-  EmitOneIn = 20
+  EmitOneIn = 100
   Emit = TRUE
 INVARIANTS Inv_Selector Inv_Cascade Inv_Hide Inv_Emit
 CHECK_DEADLOCK FALSE
